@@ -65,8 +65,8 @@ def grids(tier):
         for mask in itertools.product((False, True), repeat=2):
             out.append({"kind": "cart", "shape": [16, 10], "dx": [0.5, 1.25], "origin": [2.0, -7.0], "periodic": list(mask)})
         out.append({"kind": "cart", "shape": [7, 9, 8], "dx": [1.0, 0.8, 1.25], "origin": [-1.0, 0.0, 3.0], "periodic": [False, True, False]})
-        out.append({"kind": "cart", "shape": [24], "dx": [0.5], "origin": [-3.0], "periodic": [True]})
         out.append({"kind": "cart", "shape": [24], "dx": [0.5], "origin": [-3.0], "periodic": [False]})
+    out.append({"kind": "cart", "shape": [24], "dx": [0.5], "origin": [-3.0], "periodic": [True]})  # one dimension: the field's data buffer is contiguous
     out.append({"kind": "polar", "n": 12, "R": 12.0})
     out.append({"kind": "sph", "n": 12, "R": 12.0})
     out.append({"kind": "sph", "n": 40, "R": 10.0, "fine": True})
@@ -138,6 +138,9 @@ def candidates(g, tier, img):
         # candidates that cover no support point (vanished droplets): nothing to fit, every clause still applies
         out.append(("SphericalDroplet", 0, None, "vanished"))
         out.append(("DiffuseDroplet", 0, 1.0, "vanished"))
+        # ... and candidates about as large as the box: the fitted region is the whole grid
+        out.append(("DiffuseDroplet", 0, 1.0, "box-filling"))
+        out.append(("SphericalDroplet", 0, None, "box-filling"))
         if k == "cart" and any(g["periodic"]):
             out.append(("DiffuseDroplet", 0, 1.0, "vanished-outside"))  # ... lying in a periodic image of the box
         if pert is not None:
@@ -249,6 +252,13 @@ def prepare(case):
             cc = [0.0, 0.0, c[2] + 0.7]
     elif state == "wrong-radius":
         cR = 0.7 * R
+    elif state == "box-filling":
+        if kind == "cart":
+            cR = 0.55 * max(geom.cart_lengths(g))
+        elif kind == "cyl":
+            cR = 0.6 * max(g["R"], g["z"][1] - g["z"][0])
+        else:
+            cR = 0.97 * g["R"]
     elif state == "vanished":
         cR = 0.0
     elif state == "vanished-outside":
@@ -333,6 +343,8 @@ def run_case(case, ctx):
     ctx.check("C04.optimiser-observed", len(calls) == 1, {"calls": len(calls)}, tags)
     if state.startswith("vanished"):
         ctx.count("candidate-covering-no-cell")
+    if calls and calls[0]["region"] is not None and calls[0]["region"].all():
+        ctx.count("fit-region-is-the-whole-grid")
     if clsname.startswith("Perturbed") and modes == 0:
         ctx.count("perturbed-candidate-without-modes")
     if calls:
@@ -431,4 +443,4 @@ def cons_idx(grid):
 
 def expected_positive(tier):
     return ["C04.plural-agrees", "C04.options-not-carried-over", "C04.cost", "C04.deviation", "C04.class", "C04.bounds", "C04.constrained", "C04.wrapped", "C04.image-unmodified", "C04.fixpoint", "non-zero-initial-cost", "fit-improved",
-            "constrained-coordinates", "candidate-outside-box", "candidate-covering-no-cell", "perturbed-candidate-without-modes"]
+            "constrained-coordinates", "candidate-outside-box", "candidate-covering-no-cell", "perturbed-candidate-without-modes", "fit-region-is-the-whole-grid"]
